@@ -49,6 +49,6 @@ def instances(tier):
     for n, (k, last, seq) in enumerate(scheds(tier)):
         kc = n % 6
         symx = 1 if (5 in seq and os.environ.get('C08_SYMX', '0') == '1') else 0   # a symbolic key for the other datagram was tried: no schedule with it finished in 300 s, so it is off unless C08_SYMX=1
-        out.append(Inst('c08', 'h_c08_schedule', params=(len(seq), k, last, enc(seq), kc, symx), unwind=20, unwindset={'vp_memcpy.0': 40, 'vp_memmove.0': 40, 'vp_memmove.1': 40, 'vp_memset.0': 40}, timeout=600, mem_gb=6, recursion=3,
+        out.append(Inst('c08', 'h_c08_schedule', params=(len(seq), k, last, enc(seq), kc, symx), unwind=40, unwindset={'vp_memcpy.0': 40, 'vp_memmove.0': 40, 'vp_memmove.1': 40, 'vp_memset.0': 40}, timeout=600, mem_gb=6, recursion=3,
                         note='k=%d fragments (last %d bytes), key configuration %d%s, schedule %s' % (k, last, kc, ' (X symbolic)' if symx else '', ' '.join(NAMES.get(c, 'f%d' % c) for c in seq))))
     return out
